@@ -89,5 +89,5 @@ def items(tier):
         for lead in leads:
             for quoted in ((False,) if quick else (False, True)):
                 out.append({"fn": "canon", "params": {"skel": names.index(name), "n": 0, "quoted": quoted, "strip_fragment": quoted, "dp": "https", "shape": "ee", "lead": lead},
-                            "name": "%s tokens=%see quoted=%s" % (name, lead, quoted), "weight": 900, "defer_depth": 8})
+                            "name": "%s tokens=%see quoted=%s" % (name, lead, quoted), "weight": 900, "defer_depth": 8, "netloc_ascii": False})
     return out
